@@ -15,6 +15,8 @@ expected output.
                instantiations get distinct fullnames, one definition per fullname
   GEN-LOOKUP   the TypeLookup key of a generic type mentions every type / const parameter; of a non-generic named type
                it is the type itself (lifetimes erased to 'static); forwarding newtypes forward the inner key
+  GEN-LOGICAL  a logical type annotates a node built for the primitive the specification gives it (date / time-millis: i32;
+               time-micros / timestamp-*: i64; uuid: String)
   GEN-OWNED    named sub-nodes pushed inline are keyed by nodes.len() read before the push; logical types annotate a
                build_duplicate copy (never the shared find_or_build node)
 Corpus conventions (internal to /verif/corpus): fields named `skipped*` and variants named `Hidden*` carry
